@@ -7,6 +7,8 @@
   value outside the range, at an arbitrary temperature `x : ℚ`.
 -/
 import OPModel.Proofs.TableDesc
+import OPModel.Proofs.TableBook
+import Mathlib.Tactic.NormNum
 import OPModel.Drive.C08
 
 namespace OP.C08
@@ -180,6 +182,34 @@ theorem reinsertion_noop (cfg : TblCfg) (tol : Rat) (rows : List Row) (Ts vals :
     (h : ∀ v ∈ vals, ∃ t ∈ Ts, rabs (t - v) ≤ tol) :
     insertTemps cfg tol rows vals = .ok (rows, 0) :=
   insertTemps_noop cfg tol rows Ts vals ht hd hne h
+
+/-- The generated (CP, ΔH) pairs are laid out as the bookkeeping needs: distinct existing ΔH columns,
+    never a CP column, CP columns plain (not `T`, not `ΔT`, not interpolated). -/
+theorem genPairs_ok : PairsOK Drive.genCfg := by
+  constructor <;> decide +kernel
+
+/-- **Row bookkeeping survives an insertion** (partial: no requested temperature above the top row —
+    the top block with its pinned single-row exception is covered by the correspondence only).
+    If the first row keeps its books (ΔT numeric, CPs numeric, every ΔH = ΔT·CP) and every later
+    row's ΔT is the gap to the row above with ΔH = ΔT·CP, then the same holds for the table
+    returned for ANY list of requested temperatures at or below the top: every new or adjusted row's
+    interval width equals the gap to the row above and its enthalpy changes equal CP times it. -/
+theorem bookkeeping_preserved_partial (cfg : TblCfg) (ok : CfgOK cfg) (pk : PairsOK cfg) (tol : Rat) (htol : 0 ≤ tol)
+    (r0 : Row) (rest : List Row) (t0 d0 : Rat) (vals : List Rat)
+    (hp : Plain cfg t0 r0) (hb : Book cfg d0 r0) (hl : LinkedFrom cfg t0 rest)
+    (hnotop : ∀ v ∈ vals, ¬ t0 < v) (out : List Row) (n : Nat)
+    (he : insertTemps cfg tol (r0 :: rest) vals = .ok (out, n)) :
+    ∃ h tail, out = h :: tail ∧ Plain cfg t0 h ∧ Book cfg d0 h ∧ LinkedFrom cfg t0 tail :=
+  insertTemps_book cfg ok pk tol htol r0 rest t0 d0 vals hp hb hl hnotop out n he
+
+/-- the hypotheses are satisfiable: a two-row table over columns (T, ΔT, CP, ΔH) -/
+example : let cfg : TblCfg := { nCols := 4, tI := 0, dI := 1, interp := [], pairs := [(2, 3)] }
+    Plain cfg 100 [some 100, some 0, some 0, some 0] ∧ Book cfg 0 [some 100, some 0, some 0, some 0] ∧
+    LinkedFrom cfg 100 [[some 80, some 20, some 2, some 40]] := by
+  refine ⟨⟨rfl, rfl, ?_⟩, ⟨rfl, ?_⟩, ⟨80, rfl, ⟨by norm_num [Row.get], ?_⟩, rfl, trivial⟩⟩
+  · intro p hp; simp only [List.mem_singleton] at hp; subst hp; exact ⟨0, rfl⟩
+  · intro p hp; simp only [List.mem_singleton] at hp; subst hp; exact ⟨0, rfl, by norm_num [Row.get]⟩
+  · intro p hp; simp only [List.mem_singleton] at hp; subst hp; exact ⟨2, rfl, by norm_num [Row.get]⟩
 
 /-- The tolerance of the code is non-negative (side condition of `curves_preserved`). -/
 theorem tol_nonneg : 0 ≤ Gen.tol := by decide +kernel
